@@ -76,3 +76,121 @@ func (ex *Exec) ufVar(name string, w uint8) *Term {
 	}
 	return ex.drawVar(name, w)
 }
+
+// ---------------------------------------------------------------------------
+// Decimal formatting of symbolic integers: a contract stub instead of executing
+// strconv's digit loops (which fork once per value): the path forks on sign and digit
+// count k only, the k digit bytes are fresh variables (a function of the argument term:
+// same argument => same digits) constrained by  10^(k-1) <= u < 10^k  and
+// u == sum (d_i - '0') * 10^(k-1-i),  d_0 != '0' when k > 1,  each d_i in '0'..'9'.
+// Listed as an assumption by the checks whose harnesses format symbolic integers.
+
+var pow10u = [20]uint64{1, 10, 100, 1000, 10000, 100000, 1000000, 10000000, 100000000, 1000000000,
+	10000000000, 100000000000, 1000000000000, 10000000000000, 100000000000000, 1000000000000000,
+	10000000000000000, 100000000000000000, 1000000000000000000, 10000000000000000000}
+
+// decimalDigits returns the symbolic decimal digits of the unsigned 64-bit term u.
+func (ex *Exec) decimalDigits(u *Term) []*Term {
+	f := ex.f
+	k := 20
+	for i := 1; i < 20; i++ {
+		if ex.decide(f.Cmp(OpULt, u, Const(pow10u[i], 64)), nil) {
+			k = i
+			break
+		}
+	}
+	key := fmt.Sprintf("%016x%016x", u.h1, u.h2)
+	ds := make([]*Term, k)
+	sum := Const(0, 64)
+	for i := 0; i < k; i++ {
+		d := ex.ufVar(fmt.Sprintf("dec_%s_%d_%d", key, k, i), 8)
+		ex.addAssume(f.And(f.Cmp(OpULe, Const('0', 8), d), f.Cmp(OpULe, d, Const('9', 8))))
+		ds[i] = d
+		digit := f.Resize(f.Bin(OpSub, d, Const('0', 8)), 64, false)
+		sum = f.Bin(OpAdd, sum, f.Bin(OpMul, digit, Const(pow10u[k-1-i], 64)))
+	}
+	if k > 1 {
+		ex.addAssume(f.Not(f.Eq(ds[0], Const('0', 8))))
+	}
+	ex.addAssume(f.Eq(sum, u))
+	return ds
+}
+
+// formatSigned returns the decimal text of the signed 64-bit term v.
+func (ex *Exec) formatSigned(v *Term) []*Term {
+	f := ex.f
+	if ex.decide(f.Cmp(OpSLt, v, Const(0, 64)), nil) {
+		return append([]*Term{Const('-', 8)}, ex.decimalDigits(f.Neg(v))...)
+	}
+	return ex.decimalDigits(v)
+}
+
+func (ex *Exec) appendTerms(dst SliceV, ts []*Term) SliceV {
+	need := dst.ln + len(ts)
+	if need <= dst.cp && dst.c != nil {
+		c := ex.wr(dst.c)
+		for i, t := range ts {
+			c.v[dst.off+dst.ln+i] = t
+		}
+		return SliceV{c: dst.c, off: dst.off, ln: need, cp: dst.cp}
+	}
+	ncap := ex.growCap(dst.cp, need, types.Typ[types.Uint8])
+	nc := &Cont{v: make([]Value, ncap)}
+	if dst.ln > 0 {
+		oc := ex.rd(dst.c)
+		copy(nc.v, oc.v[dst.off:dst.off+dst.ln])
+	}
+	for i, t := range ts {
+		nc.v[dst.ln+i] = t
+	}
+	z := Const(0, 8)
+	for i := need; i < ncap; i++ {
+		nc.v[i] = z
+	}
+	return SliceV{c: nc, ln: need, cp: ncap}
+}
+
+func init() {
+	extraIntrinsics = append(extraIntrinsics, func(eng *Engine) {
+		in := eng.intrinsics
+		isBase10 := func(v Value) bool {
+			t, ok := v.(*Term)
+			return ok && t.op == OpConst && t.c == 10
+		}
+		in["strconv.AppendUint"] = func(ex *Exec, caller *frame, fn *ssa.Function, a []Value) Value {
+			u := a[1].(*Term)
+			if u.op == OpConst || !isBase10(a[2]) {
+				return ex.callSSA(caller, fn, a, nil)
+			}
+			return ex.appendTerms(a[0].(SliceV), ex.decimalDigits(u))
+		}
+		in["strconv.AppendInt"] = func(ex *Exec, caller *frame, fn *ssa.Function, a []Value) Value {
+			v := a[1].(*Term)
+			if v.op == OpConst || !isBase10(a[2]) {
+				return ex.callSSA(caller, fn, a, nil)
+			}
+			return ex.appendTerms(a[0].(SliceV), ex.formatSigned(v))
+		}
+		in["strconv.FormatUint"] = func(ex *Exec, caller *frame, fn *ssa.Function, a []Value) Value {
+			u := a[0].(*Term)
+			if u.op == OpConst || !isBase10(a[1]) {
+				return ex.callSSA(caller, fn, a, nil)
+			}
+			return normStr(ex.decimalDigits(u))
+		}
+		in["strconv.FormatInt"] = func(ex *Exec, caller *frame, fn *ssa.Function, a []Value) Value {
+			v := a[0].(*Term)
+			if v.op == OpConst || !isBase10(a[1]) {
+				return ex.callSSA(caller, fn, a, nil)
+			}
+			return normStr(ex.formatSigned(v))
+		}
+		in["strconv.Itoa"] = func(ex *Exec, caller *frame, fn *ssa.Function, a []Value) Value {
+			v := a[0].(*Term)
+			if v.op == OpConst {
+				return ex.callSSA(caller, fn, a, nil)
+			}
+			return normStr(ex.formatSigned(v))
+		}
+	})
+}
